@@ -236,8 +236,9 @@ class U:
         return res
 
     # ---- obligations
-    def prove(self, name, goal, tags=None, note="", assume=False):
+    def prove(self, name, goal, tags=None, note="", assume=False, algebra_only=False):
         ob = self.ctx.oblige(name, ops.B_(goal), kind="post", tags=tuple(tags) if tags else self.udef.props, note=note)
+        ob.algebra_only = algebra_only
         if assume:
             # a proved clause may serve as a lemma for the obligations that follow
             self.ctx.assume(goal)
@@ -504,6 +505,14 @@ def run_unit(name, repo_root=None, want_canaries=True, timeout_ms=None):
             merge(ob, r)
         else:
             open_jobs.append((ctx, ob, r))
+    # a failed side condition of a lemma instance invalidates what was derived from it: re-examine every
+    # clause of the unit on concrete instances (where no lemma is needed)
+    side_failed = [ob.name for _, ob, r in open_jobs if ob.kind == "side"]
+    if side_failed:
+        for (ctx_, ob), r in zip(jobs, res1):
+            if r["status"] == "proved" and ob.kind in ("post", "assert") and ob.name in seen:
+                del seen[ob.name]
+                open_jobs.append((ctx_, ob, {"status": "unknown", "backend": "", "secs": 0.0, "reason": f"depends on failed side condition {side_failed[0]}"}))
     # phase 2: small concrete dimensions (counterexamples, canaries)
     open_names = sorted({ob.name for _, ob, _ in open_jobs})
     for n in open_names:
@@ -522,6 +531,15 @@ def run_unit(name, repo_root=None, want_canaries=True, timeout_ms=None):
         if r["status"] == "refuted":
             r["status"] = "refuted"
         merge(ob, r)
+    if side_failed:
+        for n in list(seen):
+            rec = seen[n]
+            if rec and rec["kind"] == "side" and rec["status"] == "refuted":
+                rec["status"] = "unknown"
+                rec["reason"] = "side condition of a lemma instance not provable (the proof route does not apply to this code); dependent clauses re-examined on concrete instances"
+            elif rec and rec["kind"] in ("post", "assert") and rec["status"] == "proved" and n not in found:
+                rec["status"] = "unknown"
+                rec["reason"] = f"derived through failed side condition {side_failed[0]}; no counterexample found on small instances"
     for ctx, ob, r in open_jobs:
         if ob.name in found:
             merge(ob, {"status": "refuted", "backend": "z3", "secs": r["secs"], "reason": "counterexample with small concrete dimensions"})
@@ -618,3 +636,39 @@ def divmod_hint(u, r, q, M, t):
     """Instance of lemma divmod.row (tvc/lemmas.py): r = q*M + t, 0 <= t < M  ==>  r mod M = t, r div M = q."""
     r, q, M, t = zint(r), zint(q), zint(M), zint(t)
     u.ctx.assume(z3.Implies(z3.And(r == q * M + t, t >= 0, t < M, M >= 1), z3.And(r % M == t, r / M == q)))
+
+
+def sum_linear_hint(u, H, oH, terms, const=0, name=None, tags=None):
+    """Instance of lemma sum.linear: if summand_H(k) = sum_i coef_i * summand_i(k) + const for every k then
+    H = sum_i coef_i * S_i + n * const.  terms = [(coef, tensor, outer)].
+    With `name`, the summand identity is emitted as its own obligation (proved at an arbitrary index) and the
+    conclusion of the lemma instance becomes available afterwards; without, the instance is assumed as an implication."""
+    rH = _red_of(H)
+    if rH is None or any(_red_of(t) is None for _, t, _ in terms):
+        return
+    oH = tuple(oH) if isinstance(oH, (tuple, list)) else (oH,)
+    n = zint(rH.ns[0])
+    k = z3.Int(f"klin_{next(u.ctx.fresh_ids)}" if name is None else f"{name}.k")
+    rhs_body = zreal_(const)
+    rhs = z3.ToReal(n) * zreal_(const)
+    same_len = []
+    for coef, t, o in terms:
+        r = _red_of(t)
+        o = tuple(o) if isinstance(o, (tuple, list)) else (o,)
+        rhs_body = rhs_body + zreal_(coef) * r.body(o, (k,))
+        rhs = rhs + zreal_(coef) * r.app(o)
+        same_len.append(zint(r.ns[0]) == n)
+    if name is None:
+        agree = z3.ForAll([k], z3.Implies(z3.And(k >= 0, k < n), rH.body(oH, (k,)) == rhs_body))
+        u.ctx.assume(z3.Implies(z3.And(agree, *same_len), rH.app(oH) == rhs))
+        return
+    u.ctx.scalars[f"{name}.k"] = (k, "i")
+    ob = u.prove(name, z3.Implies(z3.And(k >= 0, k < n), z3.And(rH.body(oH, (k,)) == rhs_body, *same_len)), tags=tags)
+    ob.kind = "side"  # side condition of a lemma instance: its failure makes the dependent clauses undecided, not violated
+    u.ctx.assume(rH.app(oH) == rhs)
+
+
+def zreal_(x):
+    from .core import zreal
+
+    return zreal(x)
